@@ -26,13 +26,15 @@ Exact == Meta.exactxy
 
 On(p) == Meta.prop = "all" \/ Meta.prop = p
 
-VARIABLE l
-vars == << wvars, l >>
+VARIABLES l,
+          observed      \* FALSE for runs on files created by path: the I/O of a single call cannot be seen there
+vars == << wvars, l, observed >>
 
 Ev(e) == l <= Len(Rec) /\ Rec[l].ev = e /\ l' = l + 1
 
 TReset == /\ Ev("reset") /\ Rec[l].kind \in {"writer", "fault"}
           /\ WReset(Rec[l].withShx)
+          /\ observed' = (IF "observed" \in DOMAIN Rec[l] THEN Rec[l].observed ELSE TRUE)
 
 \* the real files hold a complete shapefile with exactly the shapes accepted so far
 CompleteFiles(e, W, t) ==
@@ -47,7 +49,7 @@ CompleteFiles(e, W, t) ==
         /\ On("C05") => r.ok /\ HeaderBoxOK(t, W, r.box)
 
 TWrite ==
-    /\ Ev("write")
+    /\ Ev("write") /\ UNCHANGED observed
     /\ LET e == Rec[l]
            s == e.shape
        IN  \/ /\ e.res = "ok"
@@ -60,16 +62,16 @@ TWrite ==
               /\ ~e.io /\ e.fxShp = << >> /\ e.fxShx = << >>
 
 TFinalize ==
-    /\ Ev("finalize")
+    /\ Ev("finalize") /\ UNCHANGED observed
     /\ LET e == Rec[l]
        IN  /\ e.res = "ok"
            /\ Finalize
-           /\ On("C09") => (e.io = dirty)          \* nothing new to commit => no I/O at all
+           /\ (On("C09") /\ observed) => (e.io = dirty)          \* nothing new to commit => no I/O at all
            \* (a call without I/O leaves the files of the previous commit point, not shipped again)
            /\ e.io => CompleteFiles(e, written, hType)
 
 TDrop ==
-    /\ Ev("drop")
+    /\ Ev("drop") /\ UNCHANGED observed
     /\ LET e == Rec[l]
        IN  /\ e.res = "ok"
            /\ Drop
@@ -79,7 +81,7 @@ TDrop ==
 
 \* consumption by write_shapes([a, b]): two writes and a drop in one call
 TConsume ==
-    /\ Ev("consume")
+    /\ Ev("consume") /\ UNCHANGED observed
     /\ LET e == Rec[l]
            W2 == written \o e.shapes
            t2 == e.shapes[1].t
@@ -102,7 +104,7 @@ TConsume ==
 (* failing actions are taken with k = 1, p = 0.                            *)
 (***************************************************************************)
 TFWrite ==
-    /\ Ev("fwrite")
+    /\ Ev("fwrite") /\ UNCHANGED observed
     /\ LET e == Rec[l]
        IN  IF status = "poisoned"
            THEN /\ WritePoisoned(e.shape)
@@ -112,17 +114,17 @@ TFWrite ==
            ELSE e.res = "ok" /\ (WriteOk(e.shape) \/ WriteTorn(e.shape))
 
 TFFinalize ==
-    /\ Ev("ffinalize")
+    /\ Ev("ffinalize") /\ UNCHANGED observed
     /\ LET e == Rec[l]
        IN  IF e.fired
            THEN e.res = "io_injected" /\ FinalizeFails(1, 0)
            ELSE /\ e.res = "ok" /\ Finalize
                 /\ status' = "live" => CompleteFiles(e, written, hType)
 
-THeal == Ev("heal") /\ UNCHANGED wvars
+THeal == Ev("heal") /\ UNCHANGED << wvars, observed >>
 
 TFDrop ==
-    /\ Ev("fdrop")
+    /\ Ev("fdrop") /\ UNCHANGED observed
     /\ LET e == Rec[l]
        IN  /\ e.res = "ok"                                    \* dropping never panics
            /\ IF e.fired THEN DropFails(1, 0)
@@ -131,7 +133,7 @@ TFDrop ==
                         /\ CompleteFiles(e, written, hType)
                         /\ e.shp = e.plainShp /\ e.shx = e.plainShx
 
-Init == /\ l = 2 /\ WInit(TRUE)
+Init == /\ l = 2 /\ WInit(TRUE) /\ observed = TRUE
 Next == TReset \/ TWrite \/ TFinalize \/ TDrop \/ TConsume \/ TFWrite \/ TFFinalize \/ THeal \/ TFDrop
 Spec == Init /\ [][Next]_vars
 
